@@ -57,6 +57,35 @@ typedef struct {
  * ============================================================================
  */
 
+/* Bit-packed access for mini-blocks wider than 32 bits. The specification
+ * packs every width the same way: values back to back, least significant bit
+ * first. (carquet_bitpack_32 covers the widths up to 32.) */
+static uint64_t delta_get_bits64(const uint8_t* base, size_t bit_off, int width) {
+    uint64_t v = 0;
+    int got = 0;
+    while (got < width) {
+        int shift = (int)(bit_off & 7);
+        int n = 8 - shift;
+        if (n > width - got) n = width - got;
+        v |= (uint64_t)((base[bit_off >> 3] >> shift) & ((1u << n) - 1u)) << got;
+        got += n;
+        bit_off += (size_t)n;
+    }
+    return v;
+}
+
+static void delta_put_bits64(uint8_t* base, size_t bit_off, uint64_t v, int width) {
+    while (width > 0) {
+        int shift = (int)(bit_off & 7);
+        int n = 8 - shift;
+        if (n > width) n = width;
+        base[bit_off >> 3] |= (uint8_t)((v & ((1u << n) - 1u)) << shift);
+        v >>= n;
+        width -= n;
+        bit_off += (size_t)n;
+    }
+}
+
 static size_t read_uleb128(const uint8_t* data, size_t size, uint64_t* value) {
     *value = 0;
     int shift = 0;
@@ -189,22 +218,22 @@ static carquet_status_t delta_decoder_read_mini_block(delta_decoder_t* dec) {
         }
 
         dec->pos += packed_size;
+    } else if (bit_width > 64) {
+        return CARQUET_ERROR_DECODE;
     } else {
-        /* Unpack 64-bit values (stored as little-endian bytes) */
-        int bytes_per_value = (bit_width + 7) / 8;
-        size_t packed_size = mini_block_size * bytes_per_value;
+        /* Unpack wide deltas (33..64 bits), bit-packed like every other width */
+        size_t packed_size = ((size_t)mini_block_size * (size_t)bit_width + 7) / 8;
         if (dec->pos + packed_size > dec->size) {
             return CARQUET_ERROR_DECODE;
         }
 
         for (int i = 0; i < mini_block_size; i++) {
-            uint64_t val = 0;
-            for (int b = 0; b < bytes_per_value; b++) {
-                val |= (uint64_t)dec->data[dec->pos++] << (b * 8);
-            }
+            uint64_t val = delta_get_bits64(dec->data + dec->pos,
+                                            (size_t)i * (size_t)bit_width, bit_width);
             /* Use unsigned addition to avoid overflow UB */
             dec->mini_block_values[i] = (int64_t)((uint64_t)dec->min_delta + val);
         }
+        dec->pos += packed_size;
     }
 
     dec->current_mini_block++;
@@ -393,8 +422,8 @@ static carquet_status_t delta_encoder_flush_block(delta_encoder_t* enc) {
                 /* Bitpacked: mini_block_size values * bit_width / 8 */
                 packed_bytes_needed += (size_t)mini_block_size * bit_widths[mb] / 8;
             } else {
-                /* Byte-by-byte: mini_block_size values * bytes_per_value */
-                packed_bytes_needed += (size_t)mini_block_size * ((bit_widths[mb] + 7) / 8);
+                /* Wide deltas are bit-packed as well */
+                packed_bytes_needed += ((size_t)mini_block_size * bit_widths[mb] + 7) / 8;
             }
         }
     }
@@ -434,21 +463,18 @@ static carquet_status_t delta_encoder_flush_block(delta_encoder_t* enc) {
             enc->pos += carquet_bitpack_32(to_pack, mini_block_size,
                                             bit_widths[mb], enc->data + enc->pos);
         } else {
-            /* For bit widths > 32, pack directly as bytes (little-endian) */
-            int bytes_per_value = (bit_widths[mb] + 7) / 8;
+            /* Bit widths > 32: bit-packed like the narrower ones (LSB first);
+             * values past the end of the data stay zero */
+            int width = bit_widths[mb];
+            size_t packed_size = ((size_t)mini_block_size * (size_t)width + 7) / 8;
+            memset(enc->data + enc->pos, 0, packed_size);
             for (int i = start; i < end; i++) {
                 /* Use unsigned subtraction to avoid overflow UB */
                 uint64_t adjusted = (uint64_t)enc->deltas[i] - (uint64_t)min_delta;
-                for (int b = 0; b < bytes_per_value; b++) {
-                    enc->data[enc->pos++] = (uint8_t)(adjusted >> (b * 8));
-                }
+                delta_put_bits64(enc->data + enc->pos,
+                                 (size_t)(i - start) * (size_t)width, adjusted, width);
             }
-            /* Pad with zeros */
-            for (int i = end - start; i < mini_block_size; i++) {
-                for (int b = 0; b < bytes_per_value; b++) {
-                    enc->data[enc->pos++] = 0;
-                }
-            }
+            enc->pos += packed_size;
         }
     }
 
